@@ -556,6 +556,77 @@ def shard_bounded_render_sweep(task):
     return ev, list(fails.values())
 
 
+# ---- one compiled template rendered by two threads: every schedule with two preemptions ------------------
+STEADY = [
+    # decorated top-level / nested defs, buffered def, capture, <%call> with caller.body, loop context, def filter
+    ('<%def name="dtag(v)" decorator="deco">d${v}:${cs}</%def><%def name="b()" buffered="True">b${cs}</%def>'
+     'begin ${cs}: ${dtag(1)} ${b()} ${capture(dtag, 2)}:end ${cs}'),
+    ('<%def name="outer()"><%def name="inner(v)" decorator="deco2">i${v}:${cs}</%def>${inner(1)}${inner(cn)}</%def>'
+     '<%def name="w()" filter="up">[${caller.body()}]</%def>'
+     '${outer()}|<%call expr="w()">body ${cs}</%call>|\n% for q in cl[:2]:\n${loop.index}${q}${cs}\n% endfor\n'),
+]
+
+
+def steady_render_case(idx, chooser, ev, fails, tag, state):
+    import mako.runtime
+    from mako.template import Template
+    from vf.gen import tenv
+
+    def ctx(i):
+        c = tenv.make_ctx()
+        c["cs"] = "S%d" % i
+        c["cn"] = 2 + i
+        return c
+
+    if idx not in state:
+        t = Template(STEADY[idx], uri="/c16steady_%d_%d.html" % (idx, next(_k)), imports=tenv.IMPORTS)
+        state[idx] = (t, [t.render_unicode(**ctx(i)) for i in (0, 1)])
+    t, solo = state[idx]
+    files = {mako.runtime.__file__, tenv.__file__}
+    modname = t.module.__name__
+    sch = S.Scheduler(chooser, trace=lambda fn: fn in files or fn == modname, max_steps=200000)
+
+    def worker(i):
+        def run():
+            try:
+                return t.render_unicode(**ctx(i))
+            except Exception as e:  # noqa: BLE001 - the type is the observation
+                return "%s: %s" % (type(e).__name__, str(e)[:80])
+        return run
+
+    case = {"part": "steady-render", "template": idx, "sweep": tag}
+    try:
+        res, errs = sch.run([worker(0), worker(1)])
+    except S.Deadlock as e:
+        fails.setdefault("steady-render-deadlock", Failure(case, "deadlock: %s" % e, "steady-render-deadlock"))
+        return len(sch.choices)
+    for i in (0, 1):
+        if res.get(i) != solo[i]:
+            f = Failure(case, "thread %d rendered %r while another thread rendered the same Template with its own context, %r alone "
+                        "(%d preemptions)\n--- source ---\n%s" % (i, res.get(i), solo[i], sch.preemptions, STEADY[idx]),
+                        "steady-render-differs-from-solo")
+            fails.setdefault(f.key, f)
+    ev.case(key=["steady-render", idx, tag], nontrivial=sch.preemptions >= 2, labels=("steady-render-sweep2", "preempt:%d" % min(sch.preemptions, 5)))
+    return len(sch.choices)
+
+
+def shard_steady_sweep2(task):
+    idx, k1s, stride2 = task
+    core.setup_repo()
+    ev = core.Evidence()
+    fails = {}
+    state = {}
+    for k1 in k1s:
+        k2 = 0
+        while True:
+            n = steady_render_case(idx, S.TwoPreemptionChooser(k1, k2), ev, fails, [k1, k2], state)
+            if k2 > n + 2:
+                break
+            k2 += stride2
+    ev.notes["steady_decisions_per_run"] = n
+    return ev, list(fails.values())
+
+
 # ---- shards --------------------------------------------------------------------
 KINDS = ["first-load-same", "different-uris", "modify-race", "failing-compile", "bounded", "bounded-vanish"]
 
@@ -687,12 +758,20 @@ def run(ctx):
     s2 = ctx.pick(4, 1)
     ctx.pmap(shard_lookup_sweep2, [("first-load-same", 0, list(range(i, 140, 16)), 1) for i in range(16)]
              + [("modify-race", v, list(range(i, 260, 16 * s2)), s2 + 1) for v in (0, 3) for i in range(16)])
+    # quick: every third k1 (offset by the seed), every fourth k2
+    q1, q2 = ctx.pick(3, 1), ctx.pick(4, 1)
+    ctx.pmap(shard_steady_sweep2, [(idx, list(range(i * q1 + (ctx.seed % q1), 180, 16 * q1)), q2) for idx in range(len(STEADY)) for i in range(16)])
     ctx.pmap(shard_random, [(ctx.shard_seed(i), ctx.pick(60, 1500), ctx.pick(25, 500)) for i in range(16)])
 
 
 def replay(case):
     core.setup_repo()
     with core.TempDir() as d:
+        if case.get("part") == "steady-render":
+            ev = core.Evidence()
+            fails = {}
+            steady_render_case(case["template"], S.TwoPreemptionChooser(*case["sweep"]), ev, fails, case["sweep"], {})
+            return next(iter(fails.values()), None)
         if case.get("part") == "first-use":
             ev = core.Evidence()
             fails = {}
